@@ -643,9 +643,10 @@ def generate(problems):
     body += "/-- (context variable, function that sets it, token reset in a `finally` of that function) -/\n"
     body += "def ctxSets : List (String × String × Bool) := [\n"
     body += ",\n".join("  (%s, %s, %s)" % (lean_str(v), lean_str(f), lbool(fin)) for v, f, fin in rows) + "]\n"
-    body += "/-- (function, target, kind of write, carrier / reason it is none) of the writes made by parse-time code -/\n"
-    body += "def writes : List (String × String × String × String) := [\n"
-    body += ",\n".join("  (%s, %s, %s, %s)" % (lean_str(f), lean_str(t), lean_str(h), lean_str(c)) for f, t, h, c in writes) + "]\n"
+    body += "/-- (function, target, kind of write, carrier or reason it is none, remark) of the writes made by parse-time code -/\n"
+    body += "def writes : List (String × String × String × String × String) := [\n"
+    body += ",\n".join("  (%s, %s, %s, %s, %s)" % (lean_str(f), lean_str(t), lean_str(h), lean_str(c.split(":", 1)[0]), lean_str(c.split(":", 1)[1] if ":" in c else ""))
+                       for f, t, h, c in writes) + "]\n"
     body += "/-- where a pending print_config request is removed -/\n"
     body += "def printConfigDeletes : List (String × String) := [%s]\n" % ", ".join("(%s, %s)" % (lean_str(f), lean_str(t)) for f, t in pc_deletes)
     for k, v in facts.items():
